@@ -15,9 +15,11 @@ import warnings
 try:
     import re._parser as sre_parse
     import re._constants as sre_c
+    import re._compiler as sre_compile
 except ImportError:                       # Python < 3.11
     import sre_parse
     import sre_constants as sre_c
+    import sre_compile
 
 from extract import (register, FOOTER, lean_str_c, strlist, ostr, blocks, ranges_of, lean_ranges, regex_class,
                      setlist, sha, src, TranslationError)
@@ -67,8 +69,82 @@ def nullable(seq):
     return True
 
 
-def re_to_lean(seq, where):
-    """parsed pattern (SubPattern / list of (op, av)) -> Lean term of type Re"""
+_CATEGORY_SETS = {}
+
+
+def _category_set(cat):
+    r"""code points of `\w`/`\s`/`\d` (str patterns), evaluated from the running Python (the tables behind `Classes`)"""
+    if not _CATEGORY_SETS:
+        for k, pat in ((sre_c.CATEGORY_WORD, r"\w"), (sre_c.CATEGORY_SPACE, r"\s"), (sre_c.CATEGORY_DIGIT, r"\d")):
+            rx = re.compile(pat)
+            _CATEGORY_SETS[k] = frozenset(cp for cp in range(0x110000) if rx.fullmatch(chr(cp)))
+    return _CATEGORY_SETS[cat]
+
+
+_NEG_CATEGORY = {}
+
+
+def _symbolic_set(op, av):
+    """what the case-SENSITIVE Lean translation of a one-character item denotes (`Re.lit/.notLit/.cls` + `classTest`)"""
+    if not _NEG_CATEGORY:
+        _NEG_CATEGORY.update({sre_c.CATEGORY_NOT_WORD: sre_c.CATEGORY_WORD, sre_c.CATEGORY_NOT_SPACE: sre_c.CATEGORY_SPACE,
+                              sre_c.CATEGORY_NOT_DIGIT: sre_c.CATEGORY_DIGIT})
+    full = range(0x110000)
+    if op is sre_c.LITERAL:
+        return {av}
+    if op is sre_c.NOT_LITERAL:
+        return set(full) - {av}
+    neg = bool(av) and av[0][0] is sre_c.NEGATE
+    acc = set()
+    for iop, iav in (av[1:] if neg else av):
+        if iop is sre_c.LITERAL:
+            acc.add(iav)
+        elif iop is sre_c.RANGE:
+            acc.update(range(iav[0], iav[1] + 1))
+        elif iop is sre_c.CATEGORY and iav in _NEG_CATEGORY:
+            acc.update(set(full) - _category_set(_NEG_CATEGORY[iav]))
+        elif iop is sre_c.CATEGORY:
+            acc.update(_category_set(iav))             # KeyError for an unsupported category: _citem reports it
+        else:
+            raise TranslationError("unsupported class item %r" % (iop,))
+    return set(full) - acc if neg else acc
+
+
+def _ranges_of_set(cps):
+    out = []
+    for cp in sorted(cps):
+        if out and out[-1][1] == cp - 1:
+            out[-1][1] = cp
+        else:
+            out.append([cp, cp])
+    return out
+
+
+def _folded_item(state, op, av, where):
+    """IGNORECASE: the exact set of characters Python's compiled form of the one-character item (LITERAL, NOT_LITERAL,
+    IN) matches under the pattern's flags, obtained by compiling that single parsed item with sre's own compiler and
+    evaluating it on every code point.  Returns None when the flag does not change the item (the case-sensitive
+    translation denotes the same set), else the Lean term: a positive class of the evaluated ranges, or a negated
+    class of the complement when that is the shorter list."""
+    rx = sre_compile.compile(sre_parse.SubPattern(state, [(op, av)]), state.flags)
+    real = set(cp for cp in range(0x110000) if rx.fullmatch(chr(cp)))
+    if real == _symbolic_set(op, av):
+        return None
+    pos = _ranges_of_set(real)
+    neg = _ranges_of_set(set(range(0x110000)) - real)
+    if len(pos) > 400 and len(neg) > 400:
+        raise TranslationError("%s: case-insensitive class with %d ranges" % (where, min(len(pos), len(neg))))
+    use_neg = len(neg) < len(pos)
+    return ".cls %s [%s]" % ("true" if use_neg else "false", ", ".join(".range %d %d" % (a, b) for a, b in (neg if use_neg else pos)))
+
+
+def re_to_lean(seq, where, state=None):
+    """parsed pattern (SubPattern / list of (op, av)) -> Lean term of type Re.  `state` is the parse state; its flags
+    decide whether one-character items are case-folded (SRE_FLAG_IGNORECASE as reported by the parse, which also
+    covers a global inline `(?i)`)."""
+    if state is None:
+        state = seq.state
+    icase = bool(state.flags & sre_c.SRE_FLAG_IGNORECASE)
     items = []
     lits = []
 
@@ -80,6 +156,12 @@ def re_to_lean(seq, where):
                 items.append("Re.str [%s]" % ", ".join(str(c) for c in lits))
             del lits[:]
     for op, av in seq:
+        if icase and op in (sre_c.LITERAL, sre_c.NOT_LITERAL, sre_c.IN):
+            folded = _folded_item(state, op, av, where)
+            if folded is not None:
+                flush()
+                items.append(folded)
+                continue
         if op is sre_c.LITERAL:
             lits.append(av)
             continue
@@ -100,19 +182,19 @@ def re_to_lean(seq, where):
             else:
                 raise TranslationError("%s: unsupported anchor %r" % (where, av))
         elif op is sre_c.BRANCH:
-            items.append("Re.alts [%s]" % ", ".join(re_to_lean(b, where) for b in av[1]))
+            items.append("Re.alts [%s]" % ", ".join(re_to_lean(b, where, state) for b in av[1]))
         elif op is sre_c.SUBPATTERN:
             group, add_flags, del_flags, p = av
             if add_flags or del_flags:
                 raise TranslationError("%s: inline flags are not supported" % where)
-            inner = re_to_lean(p, where)
+            inner = re_to_lean(p, where, state)
             items.append(inner if group is None else ".group %d (%s)" % (group, inner))
         elif op in (sre_c.MAX_REPEAT, sre_c.MIN_REPEAT):
             mn, mx, p = av
             if nullable(p) and (mx is sre_c.MAXREPEAT or mx > 1):
                 raise TranslationError("%s: repeat with a nullable body (sre's empty-iteration corner) is not supported" % where)
             items.append(".rep %d %s %s (%s)" % (mn, "none" if mx is sre_c.MAXREPEAT else "(some %d)" % mx,
-                                                "true" if op is sre_c.MAX_REPEAT else "false", re_to_lean(p, where)))
+                                                "true" if op is sre_c.MAX_REPEAT else "false", re_to_lean(p, where, state)))
         else:
             raise TranslationError("%s: unsupported regex op %r" % (where, op))
     flush()
@@ -121,31 +203,66 @@ def re_to_lean(seq, where):
     return "Re.seq [%s]" % ", ".join("(%s)" % i if " " in i and not i.startswith("(") else i for i in items)
 
 
-SUPPORTED_FLAGS = re.UNICODE | re.VERBOSE
+SUPPORTED_FLAGS = re.UNICODE | re.VERBOSE | re.IGNORECASE
 
 
 def lean_regex(name, pattern, flags, doc):
     if flags & ~SUPPORTED_FLAGS:
         raise TranslationError("%s: unsupported flags %r" % (name, flags))
     p = sre_parse.parse(pattern, flags)
+    if p.state.flags & ~SUPPORTED_FLAGS:
+        raise TranslationError("%s: unsupported flags %r (after parsing)" % (name, p.state.flags))
     shown = "".join(c if 32 <= ord(c) < 127 and c not in "-/" else "?" for c in " ".join(pattern.split()))
-    return "/-- %s: `%s` (groups: %d) -/\ndef %s : Re :=\n  %s\n" % (doc, shown[:300], p.state.groups - 1, name,
-                                                                    re_to_lean(p, name))
+    fl = ", flags: %s" % re.RegexFlag(p.state.flags & ~re.UNICODE).name if p.state.flags & ~re.UNICODE else ""
+    return "/-- %s: `%s` (groups: %d%s) -/\ndef %s : Re :=\n  %s\n" % (doc, shown[:300], p.state.groups - 1, fl, name,
+                                                                      re_to_lean(p, name))
+
+
+def _flags_value(node):
+    """value of a flags expression `re.I`, `re.IGNORECASE | re.X`, … (anything else is a TranslationError)"""
+    if isinstance(node, ast.Attribute) and isinstance(node.value, ast.Name) and node.value.id == "re" and \
+            isinstance(getattr(re, node.attr, None), re.RegexFlag):
+        return int(getattr(re, node.attr))
+    if isinstance(node, ast.BinOp) and isinstance(node.op, ast.BitOr):
+        return _flags_value(node.left) | _flags_value(node.right)
+    raise TranslationError("line %d: flags expression is not a combination of re.<FLAG> constants" % node.lineno)
+
+
+# position of the `flags` argument of the module-level functions of `re`
+_FLAGS_POS = {"compile": 1, "search": 2, "match": 2, "fullmatch": 2, "findall": 2, "finditer": 2, "sub": 4, "subn": 4, "split": 3}
+
+
+# the `re.<method>` calls of allowed_token / sanitize_css the model is written for, in source order
+TOK_CALLS = ["sub", "sub", "search"]
+CSS_CALLS = ["compile", "search", "match", "match", "findall", "match"]
 
 
 def re_calls(fn):
-    """[(method, pattern string)] of the `re.<method>(<constant>, ...)` calls inside a function, in source order"""
+    """[(method, pattern string, flags)] of the `re.<method>(<constant>, ...)` calls inside a function, in source order;
+    flags (positional or `flags=`) must be a literal combination of `re.<FLAG>` constants"""
     out = []
     for n in ast.walk(fn):
         if (isinstance(n, ast.Call) and isinstance(n.func, ast.Attribute) and isinstance(n.func.value, ast.Name)
                 and n.func.value.id == "re"):
             if not (n.args and isinstance(n.args[0], ast.Constant) and isinstance(n.args[0].value, str)):
                 raise TranslationError("line %d: re.%s with a non-literal pattern" % (n.lineno, n.func.attr))
-            if len(n.args) > (3 if n.func.attr == "sub" else 2) or n.keywords:
-                raise TranslationError("line %d: re.%s with flags/extra arguments" % (n.lineno, n.func.attr))
-            out.append((n.lineno, n.col_offset, n.func.attr, n.args[0].value))
+            if n.func.attr not in _FLAGS_POS:
+                raise TranslationError("line %d: re.%s is not supported" % (n.lineno, n.func.attr))
+            pos = _FLAGS_POS[n.func.attr]
+            if n.func.attr in ("sub", "subn", "split"):
+                pos_max = pos - 1               # a positional count/maxsplit is not modelled; flags only as `flags=`
+            else:
+                pos_max = pos + 1
+            if len(n.args) > pos_max or any(k.arg != "flags" for k in n.keywords):
+                raise TranslationError("line %d: re.%s with extra arguments (count/maxsplit/pos)" % (n.lineno, n.func.attr))
+            flags = 0
+            if len(n.args) == pos + 1:
+                flags |= _flags_value(n.args[pos])
+            for k in n.keywords:
+                flags |= _flags_value(k.value)
+            out.append((n.lineno, n.col_offset, n.func.attr, n.args[0].value, flags))
     out.sort()
-    return [(m, p) for _, _, m, p in out]
+    return [(m, p, f) for _, _, m, p, f in out]
 
 
 # ------------------------------------------------------------------------------------------------------------------
@@ -235,11 +352,13 @@ def gen_sanitizer():
     # ---- character classes
     calls_tok = re_calls(pylite.find_function(tree, "Filter.allowed_token"))
     calls_css = re_calls(css_fn)
-    if [m for m, _ in calls_tok] != ["sub", "sub", "search"]:
-        raise TranslationError("allowed_token: re calls changed: %r" % ([m for m, _ in calls_tok],))
-    if [m for m, _ in calls_css] != ["compile", "match", "match", "findall", "match"]:
-        raise TranslationError("sanitize_css: re calls changed: %r" % ([m for m, _ in calls_css],))
+    if [m for m, _, _ in calls_tok] != TOK_CALLS:
+        raise TranslationError("allowed_token: re calls changed: %r" % ([m for m, _, _ in calls_tok],))
+    if [m for m, _, _ in calls_css] != CSS_CALLS:
+        raise TranslationError("sanitize_css: re calls changed: %r" % ([m for m, _, _ in calls_css],))
     strip_pat = calls_tok[0][1]
+    if calls_tok[0][2]:
+        raise TranslationError("URI cleaning pattern with flags: cleanUri models it as a plain class deletion")
     m = re.fullmatch(r"(\[.*\])\+", strip_pat, re.S)
     if not m:
         raise TranslationError("URI cleaning pattern %r is not [class]+" % strip_pat)
@@ -264,20 +383,21 @@ def gen_sanitizer():
     out += "def nfkcNetlocBad : List (Nat × Nat) := %s\n" % lean_ranges(nfkc_bad())
 
     # ---- regular expressions, from Python's parse of the module's own pattern strings
-    out += "\n" + lean_regex("reUriStrip", strip_pat, 0, "allowed_token: re.sub(P, '', unescape(v))")
-    out += lean_regex("reSvgUrl", calls_tok[1][1], 0, "allowed_token: re.sub(P, ' ', unescape(v)) for svg_attr_val_allows_ref")
-    out += lean_regex("reLocalHref", calls_tok[2][1], 0, "allowed_token: re.search(P, xlink:href)")
+    out += "\n" + lean_regex("reUriStrip", strip_pat, calls_tok[0][2], "allowed_token: re.sub(P, '', unescape(v))")
+    out += lean_regex("reSvgUrl", calls_tok[1][1], calls_tok[1][2], "allowed_token: re.sub(P, ' ', unescape(v)) for svg_attr_val_allows_ref")
+    out += lean_regex("reLocalHref", calls_tok[2][1], calls_tok[2][2], "allowed_token: re.search(P, xlink:href)")
     dct = S.data_content_type
     out += lean_regex("reDataContentType", dct.pattern, dct.flags, "data_content_type.match(uri.path)")
     if dct.groupindex.get("content_type") != 1:
         raise TranslationError("data_content_type: group content_type is not group 1")
-    out += lean_regex("reCssUrl", calls_css[0][1], 0, "sanitize_css: re.compile(P).sub(' ', style)")
-    out += lean_regex("reGauntlet1", calls_css[1][1], 0, "sanitize_css: re.match(P, style)")
-    out += lean_regex("reGauntlet2", calls_css[2][1], 0, "sanitize_css: re.match(P, style)")
-    out += lean_regex("reDecl", calls_css[3][1], 0, "sanitize_css: re.findall(P, style)")
-    out += lean_regex("reKeyword", calls_css[4][1], 0, "sanitize_css: re.match(P, keyword)")
+    out += lean_regex("reCssUrl", calls_css[0][1], calls_css[0][2], "sanitize_css: re.compile(P, flags).sub(' ', style)")
+    out += lean_regex("reCssUrlGuard", calls_css[1][1], calls_css[1][2], "sanitize_css: if re.search(P, style, flags): return ''")
+    out += lean_regex("reGauntlet1", calls_css[2][1], calls_css[2][2], "sanitize_css: re.match(P, style)")
+    out += lean_regex("reGauntlet2", calls_css[3][1], calls_css[3][2], "sanitize_css: re.match(P, style)")
+    out += lean_regex("reDecl", calls_css[4][1], calls_css[4][2], "sanitize_css: re.findall(P, style)")
+    out += lean_regex("reKeyword", calls_css[5][1], calls_css[5][2], "sanitize_css: re.match(P, keyword)")
     out += "\n/-- name ↦ pattern, for the `re:<name>` driver ops -/\ndef regexTable : List (String × Re) := [\n  %s]\n" % ",\n  ".join(
-        '("%s", re%s)' % (n, n) for n in ("UriStrip", "SvgUrl", "LocalHref", "DataContentType", "CssUrl", "Gauntlet1",
+        '("%s", re%s)' % (n, n) for n in ("UriStrip", "SvgUrl", "LocalHref", "DataContentType", "CssUrl", "CssUrlGuard", "Gauntlet1",
                                            "Gauntlet2", "Decl", "Keyword"))
     for fn in ("Filter.__init__", "Filter.__iter__", "Filter.sanitize_token", "Filter.allowed_token", "Filter.disallowed_token",
                "Filter.sanitize_css"):
@@ -302,7 +422,9 @@ def patterns():
     tree = ast.parse(src(REL))
     t = re_calls(pylite.find_function(tree, "Filter.allowed_token"))
     c = re_calls(pylite.find_function(tree, "Filter.sanitize_css"))
+    if [m for m, _, _ in t] != TOK_CALLS or [m for m, _, _ in c] != CSS_CALLS:
+        raise TranslationError("re calls of allowed_token / sanitize_css changed: %r %r" % ([m for m, _, _ in t], [m for m, _, _ in c]))
     d = S.data_content_type
-    return {"UriStrip": (t[0][1], 0), "SvgUrl": (t[1][1], 0), "LocalHref": (t[2][1], 0),
-            "DataContentType": (d.pattern, d.flags & ~re.UNICODE), "CssUrl": (c[0][1], 0), "Gauntlet1": (c[1][1], 0),
-            "Gauntlet2": (c[2][1], 0), "Decl": (c[3][1], 0), "Keyword": (c[4][1], 0)}
+    return {"UriStrip": (t[0][1], t[0][2]), "SvgUrl": (t[1][1], t[1][2]), "LocalHref": (t[2][1], t[2][2]),
+            "DataContentType": (d.pattern, d.flags & ~re.UNICODE), "CssUrl": (c[0][1], c[0][2]), "CssUrlGuard": (c[1][1], c[1][2]),
+            "Gauntlet1": (c[2][1], c[2][2]), "Gauntlet2": (c[3][1], c[3][2]), "Decl": (c[4][1], c[4][2]), "Keyword": (c[5][1], c[5][2])}
